@@ -67,6 +67,8 @@ PROP = {
             "harnesses": [
                 H("c03_cksum_alignment_witness", "P", what="align_offset decision follows the address parity"),
                 H("c03_cksum_words_fold", "P", what="add_u16/add_u32/add_u64/fold_checksum/checksum, full domain"),
+                H("c03_cksum_add_slice_aligned_8", "B", bound="slice length <= 8", what="add_slice == RFC 1071 sum incl. both end-around carries, even start address"),
+                H("c03_cksum_add_slice_unaligned_8", "B", bound="slice length <= 8", what="add_slice == RFC 1071 sum incl. both end-around carries, odd start address"),
                 H("c03_cksum_add_slice_aligned_64", "B", tier="thorough", bound="slice length <= 64", what="add_slice == RFC 1071 sum, even start address"),
                 H("c03_cksum_add_slice_unaligned_64", "B", tier="thorough", bound="slice length <= 64", what="add_slice == RFC 1071 sum, odd start address"),
                 H("c03_cksum_add_slice_aligned_256", "B", tier="thorough", bound="slice length <= 256", what="add_slice == RFC 1071 sum, even start address", timeout=3600),
